@@ -802,3 +802,5 @@ ASSUMPTIONS = ["PY-STR", "PY-EXC", "PY-ALIAS: last_closed is None, the root, or 
 BOUNDED = ["replay/C17.py: native grammar search (about 1000 documents: visible blocks x removable elements x void / self-closing / "
            "unclosed / mis-nested / nested-removable / comment / CDATA contents, through read_html, read_mhtml, msg._html_to_text and an "
            "EPUB chapter) is a witness finder for refuted obligations only; it is bounded and never counted as proof"]
+
+REPLAY_UNKNOWN = True    # undecided / out-of-subset items are searched natively (replay) before being reported UNDECIDED
